@@ -9,6 +9,7 @@ import (
 	"math/rand"
 	"os"
 	"runtime"
+	"syscall"
 	"time"
 
 	"github.com/berquerant/crd/astconv"
@@ -92,6 +93,14 @@ type iterResp struct {
 	Classify  string `json:"classify"`
 }
 
+func cpuTime() time.Duration {
+	var ru syscall.Rusage
+	if err := syscall.Getrusage(syscall.RUSAGE_SELF, &ru); err != nil {
+		return 0
+	}
+	return time.Duration(ru.Utime.Nano() + ru.Stime.Nano())
+}
+
 // modeIter reads texts, parses each, and runs the channel iterator under
 // several consumer behaviours, comparing with the independent pre-order walk.
 func modeIter(_ int, seed int64) {
@@ -157,13 +166,35 @@ func modeIter(_ int, seed int64) {
 					resp.Problem = fmt.Sprintf("yields %d nodes, the tree has %d", k, len(want))
 				}
 			}()
-			select {
-			case <-done:
-			case <-time.After(20 * time.Second):
-				resp.Problem = "deadlock: iteration did not finish within 20 s"
-				emit(resp)
-				out.Flush()
-				os.Exit(3)
+			finished := false
+			for round := 0; !finished; round++ {
+				select {
+				case <-done:
+					finished = true
+				case <-time.After(15 * time.Second):
+					// not a verdict by the clock: the iteration is declared dead only when the
+					// process stopped consuming CPU although the iteration is unfinished
+					// (everything is blocked); as long as it burns CPU it is merely slow
+					before := cpuTime()
+					select {
+					case <-done:
+						finished = true
+						continue
+					case <-time.After(3 * time.Second):
+					}
+					if cpuTime()-before < 20*time.Millisecond {
+						resp.Problem = "deadlock: producer and consumer are both blocked (no CPU consumed for 3 s, iteration unfinished)"
+						emit(resp)
+						out.Flush()
+						os.Exit(3)
+					}
+					if round >= 20 {
+						resp.Problem = "inconclusive: iteration still running after 6 minutes"
+						emit(resp)
+						out.Flush()
+						os.Exit(4)
+					}
+				}
 			}
 			// the real consumer
 			if beh == "drain" {
